@@ -567,30 +567,36 @@ func (c *Collection) expireDocuments() (count int64, err error) {
 	traceEnter("_expireDocuments", "")
 	defer func() { traceExit("_expireDocuments", err, "%d", count) }()
 
-	// First find all the expired docs and collect their keys:
+	// First find all the expired docs and collect their keys, and the CAS of the version that has expired:
 	exp := nowAsExpiry()
-	rows, err := c.db().Query(`SELECT key FROM documents
+	rows, err := c.db().Query(`SELECT key, cas FROM documents
 								WHERE collection = ?1 AND exp > 0 AND exp <= ?2`, c.id, exp)
 	if err != nil {
 		return
 	}
-	var keys []string
+	type expiredDoc struct {
+		key string
+		cas CAS
+	}
+	var expired []expiredDoc
 	for rows.Next() {
-		var key string
-		if err = rows.Scan(&key); err != nil {
+		var doc expiredDoc
+		if err = rows.Scan(&doc.key, &doc.cas); err != nil {
 			return
 		}
-		keys = append(keys, key)
+		expired = append(expired, doc)
 	}
 	if err = rows.Err(); err != nil {
 		return
 	}
 
-	// Now delete each doc. (This has to be done after the above query finishes, because Delete()
+	// Now delete each doc. (This has to be done after the above query finishes, because remove()
 	// will get its own db connection, and if the db only supports one connection (i.e. in-memory)
 	// having both queries active would deadlock.)
-	for _, key := range keys {
-		if c.Delete(key) == nil {
+	// The delete is conditional on the CAS that was found expired: a document that has been written
+	// again since the query ran has the expiry of that write, and must not be deleted here.
+	for _, doc := range expired {
+		if _, err := c.remove(doc.key, &doc.cas); err == nil {
 			count++
 		}
 	}
